@@ -1,0 +1,47 @@
+//go:build verif
+
+// Contracts for the verifier in /verif (comment-only file; contributes no declarations).
+package failsafe
+
+// Ghost state of the watcher: the abstract history that property C20 talks about.
+//@ ghost var gLast int          // last reaction fired: 0 none, 1 "unhealthy" (to false), 2 "healthy again" (to true)
+//@ ghost var gRunLen int        // number of consecutive equal observations ending with the latest one
+//@ ghost var gRunStart int64    // time of the first observation of that run
+//@ ghost var gCoolUntil int64   // end of the cool-down that follows the last "unhealthy" reaction
+//@ ghost var gLastObs bool      // the latest observation (assumed healthy before the first one)
+
+// Every observation sequence: the predicate returns an arbitrary Boolean at an arbitrary later time.
+//@ field Config.ObtainPredicate
+//@   modifies gRunLen, gRunStart, gLastObs, now
+//@   ensures gLastObs == result
+//@   ensures result != old(gLastObs) ==> gRunLen == 1 && gRunStart == now()
+//@   ensures result == old(gLastObs) ==> gRunLen == old(gRunLen) + 1 && gRunStart == old(gRunStart)
+
+// The pre-conditions of the two reactions ARE the property statement.
+//@ field Config.OnChangeToFalse
+//@   requires[alternate] gLast != 1
+//@   requires[observed] gLastObs == false
+//@   requires[stable-count] gRunLen >= self.ConsecutiveN
+//@   requires[stable-period] now() - gRunStart >= self.MinStablePeriod
+//@   requires[cooldown] now() >= gCoolUntil
+//@   modifies gLast, gCoolUntil, now
+//@   ensures gLast == 1 && gCoolUntil == now() + self.CooldownPeriod
+
+//@ field Config.OnChangeToTrue
+//@   requires[alternate] gLast == 1
+//@   requires[observed] gLastObs == true
+//@   requires[stable-count] gRunLen >= self.ConsecutiveN
+//@   requires[stable-period] now() - gRunStart >= self.MinStablePeriod
+//@   requires[cooldown] now() >= gCoolUntil
+//@   modifies gLast, now
+//@   ensures gLast == 2
+
+//@ func (*StateChangeWatcher).run
+//@   prop C20
+//@   requires scw.lastState && scw.currentStableState && scw.changeCount == 0
+//@   requires gLast == 0 && gRunLen == 0 && gLastObs == true && gCoolUntil <= now()
+//@   loop 1 invariant[obs]   scw.lastState == gLastObs
+//@   loop 1 invariant[alt]   scw.currentStableState <==> gLast != 1
+//@   loop 1 invariant[count] scw.changeCount == gRunLen
+//@   loop 1 invariant[start] scw.lastState != scw.currentStableState ==> scw.changeStart >= gRunStart
+//@   loop 1 invariant[cool]  now() >= gCoolUntil
